@@ -312,7 +312,7 @@ def evictPod (m : M) : Res :=
     if m.mem.status.status ≠ CT.eviction then .stop (abortWith m Rs.missingPod)
     else okOr (updateCondition m ⟨CT.eviction, true, Rs.evictComplete, 0⟩)
   | some p =>
-    if (getCond m.mem.status.conds CT.eviction).isSome && m.mem.spec.podUID != 0 && m.mem.spec.podUID != p.uid then
+    if m.mem.spec.podUID != 0 && m.mem.spec.podUID != p.uid then   -- a same-name replacement is not the target (df70d80)
       if m.mem.status.status ≠ CT.eviction then .stop (abortWith m Rs.missingPod)
       else okOr (updateCondition m ⟨CT.eviction, true, Rs.evictComplete, 0⟩)
     else
